@@ -1,28 +1,55 @@
 ------------------------------- MODULE T_Find -------------------------------
 (* Trace validation of whole find runs against the composed specification    *)
-(* (FindSem): {"in": {tree, roots, cfg, words}, "obs": {out, exit, attrs}}.  *)
+(* (FindSem): {"in": {tree, roots, cfg, words}, "obs": {out, exit, attrs,    *)
+(* files, now, users, groups}}.  attrs (status records incl. timestamps),    *)
+(* now (the injected clock) and users/groups (the ids the system knows) are  *)
+(* measurements of the environment; out, files and exit are judged.          *)
 EXTENDS FindSem, TraceLib
 
-CfgOf(in) == [mode |-> in.cfg.mode, min |-> in.cfg.min, max |-> in.cfg.max,
-              depth |-> in.cfg.depth, sorted |-> TRUE, prune |-> {}]
+CfgOf(in, obs) == [mode |-> in.cfg.mode, min |-> in.cfg.min, max |-> in.cfg.max,
+                   depth |-> in.cfg.depth, sorted |-> TRUE, prune |-> {},
+                   syn |-> in.cfg.syn, now |-> obs.now, users |-> RangeOf(obs.users), groups |-> RangeOf(obs.groups)]
+WalkCfg(in) == [mode |-> in.cfg.mode, min |-> in.cfg.min, max |-> in.cfg.max, depth |-> in.cfg.depth, sorted |-> TRUE, prune |-> {}]
 TreeOf(in, obs) ==
   [i \in DOMAIN in.tree |->
      [parent |-> in.tree[i].parent, name |-> in.tree[i].name, kind |-> in.tree[i].kind, target |-> in.tree[i].target,
       hl |-> in.tree[i].hl,
       size |-> obs.attrs[i].size, mode |-> obs.attrs[i].mode, uid |-> obs.attrs[i].uid, gid |-> obs.attrs[i].gid,
-      nlink |-> obs.attrs[i].nlink, ino |-> obs.attrs[i].ino, text |-> obs.attrs[i].text]]
+      nlink |-> obs.attrs[i].nlink, ino |-> obs.attrs[i].ino, text |-> obs.attrs[i].text,
+      tm |-> [m |-> obs.attrs[i].mt, c |-> obs.attrs[i].ct]]]
+
+RECURSIVE Norm(_)
+Norm(e) ==
+  IF e.t = "set" THEN [t |-> "set", cs |-> RangeOf(e.cs), neg |-> e.neg]
+  ELSE IF e.t \in {"cat", "alt"} THEN [t |-> e.t, a |-> Norm(e.a), b |-> Norm(e.b)]
+  ELSE IF e.t = "rep" THEN [t |-> "rep", a |-> Norm(e.a), lo |-> e.lo, hi |-> e.hi]
+  ELSE IF e.t \in {"grp", "star", "plus", "opt"} THEN [t |-> e.t, a |-> Norm(e.a)]
+  ELSE e
+WordsOf(in) == [i \in DOMAIN in.words |->
+                  IF in.words[i].k = "regex" THEN [k |-> "regex", ast |-> Norm(in.words[i].ast), fold |-> in.words[i].fold]
+                  ELSE in.words[i]]
+\* the pattern texts the harness put on the command line are the specification's rendering of the trees
+RegexTextsOK(in) ==
+  \A i \in DOMAIN in.words : in.words[i].k = "regex" => in.words[i].text = RX!Concrete(Norm(in.words[i].ast), in.cfg.syn)
 
 Measured(obs) == "panic" \notin DOMAIN obs /\ \A i \in DOMAIN obs.attrs : "missing" \notin DOMAIN obs.attrs[i]
 InDomain(in, obs) ==
-  /\ WalkRoots(in.tree, CfgOf(in), in.roots).errs = 0
   /\ EmptyNames(in.roots) = {}
   /\ (Measured(obs) =>
         /\ \A i \in DOMAIN obs.attrs : obs.attrs[i].ino < 2147483647 /\ obs.attrs[i].size < 2147483647
-        /\ SemDom(in.words, TreeOf(in, obs), CfgOf(in), in.roots))
+        /\ SemDom(WordsOf(in), TreeOf(in, obs), CfgOf(in, obs), in.roots)
+        /\ RegexTextsOK(in))
 
+FileOK(r, named, c, f) ==
+  IF c \in named THEN f.there /\ f.b = r.outs[c] ELSE ~f.there
 Conforms(in, obs) ==
-  /\ Measured(obs) /\ obs.exit = 0
-  /\ obs.out = FindOutput(in.words, TreeOf(in, obs), CfgOf(in), in.roots)
+  /\ Measured(obs)
+  /\ LET w == WordsOf(in)
+         r == FindResult(w, TreeOf(in, obs), CfgOf(in, obs), in.roots) IN
+     /\ obs.out = r.outs[0]
+     /\ \A c \in 1..2 : FileOK(r, FilesNamed(w), c, obs.files[c])
+     /\ r.sure => ((obs.exit # 0) <=> (r.errs > 0))
+     /\ (r.errs > 0 /\ r.sure) => obs.diag
 
 Describe(in) == [words |-> Toks(in.words)]
 INSTANCE TraceCheck
